@@ -37,10 +37,30 @@ def run(ctx, chk):
              'off (C07.2)', floor=2)
     chk.rule('C08.4', 'D', 'suspended CPU: update ticks exactly 4 clocks, checks interrupts, executes nothing; run_state '
              ':= Run only in handle_interrupt / constructors', floor=3)
+    chk.rule('C08.6', 'D', 'the interpreter reports EI, DI, RETI, HALT and STOP to the step function with their own status '
+             'codes (RETI = enable immediately, EI = enable after the next instruction), and every other instruction with '
+             'NORMAL', floor=5)
     chk.rule('C08.5', 'D', 'run_next_op returns None only for an empty fetch slice, and no fetchable range is empty', floor=5)
     facts = ctx.facts('default')
     prog = ctx.program('default')
     file = 'src/emulator.rs'
+    # ---- rule 6: which status each control instruction hands to the step function
+    from .c06 import status_constants
+    from .. import opspec as osp2
+    sc = status_constants(facts)
+    spx = ctx.opspec('default')
+    for enc, mn, want in (((None, 0xfb), 'EI', 'STATUS_INTERRUPT_ENABLE'), ((None, 0xf3), 'DI', 'STATUS_INTERRUPT_DISABLE'),
+                          ((None, 0xd9), 'RETI', 'STATUS_INTERRUPT_ENABLE_IMMEDIATE'), ((None, 0x76), 'HALT', 'STATUS_HALT'),
+                          ((None, 0x10), 'STOP', 'STATUS_STOP'), ((None, 0x00), 'NOP', 'STATUS_NORMAL')):
+        got = set()
+        for r in spx.interp(enc):
+            if r.status == 'ok':
+                got.add(r.state.env.const_of(r.ret) if r.ret is not None and T.is_int(r.ret) else None)
+        if got == {sc[want]}:
+            chk.ok('C08.6', mn, sample={'instruction': mn, 'status': want})
+        else:
+            chk.fail('C08.6', mn, '%s is reported to the step function with status %s, expected %s = %d' % (
+                mn, sorted(map(str, got)), want, sc[want]), 'src/interpreter/mod.rs', None)
     if not need(chk, prog, [RI, RNO, CORE + 'update', CORE + 'handle_interrupt']):
         return chk.finish('anchors missing')
     names = status_constants(facts)
